@@ -26,6 +26,19 @@ from suit_generator.exceptions import GeneratorError, SUITError
 logger = logging.getLogger(__name__)
 
 
+def _reject_value_sharing(decoder):
+    """Refuse CBOR value sharing (tags 28 and 29) - not used by SUIT, allows tiny inputs to expand exponentially."""
+    raise ValueError("CBOR value sharing is not supported")
+
+
+try:
+    cbor2.loads(b"\x00", semantic_decoders={})
+    _CBOR_LOADS_OPTIONS = {"semantic_decoders": {28: _reject_value_sharing, 29: _reject_value_sharing}}
+except TypeError:
+    # cbor2 version without configurable semantic decoders
+    _CBOR_LOADS_OPTIONS = {}
+
+
 @dataclass
 class Tag:
     """Tag metadata."""
@@ -159,7 +172,7 @@ class SuitObject(PrettyPrintHelperMixin):
         # Ensure that cbor2.loads() will not consume all the available memory
         SuitObject.validate_cbor(cbstr)
         try:
-            return cbor2.loads(cbstr)
+            return cbor2.loads(cbstr, **_CBOR_LOADS_OPTIONS)
         except ImportError as err:
             # Can occur due to possible incompatibilities in packages between virtual environment and system scope
             # (seen on Windows, where cbor2 was installed globally and in virtual environment)
